@@ -24,6 +24,15 @@ def drv(focus, n=None, tags="verif"):
 GENS = [dict(tool="genloop", out="GenLoop.v", args=["{repo}"])]
 
 
+def startfault(n=60, tags="verif"):
+    """oracle-only run (no model trace): engine / client starts in which one descriptor-creating or registering
+    system call fails; whatever the framework created must be closed again when Run / Start returns"""
+    return dict(cmd="drv-loop", variant="startfault" + ("-pollopt" if "poll_opt" in tags else ""), corpus_family="loopstart",
+                unix_swap=(LOOP_SWAP_OPT if "poll_opt" in tags else LOOP_SWAP), shrink=False, netns=True,
+                args=["-focus", "startfault", "-n", str(n)], tags=tags, sites=["^fd-leak$", "^engine-start$", "^hang$"],
+                timeout=dict(quick=600, thorough=3000))
+
+
 RULE = ("each case starts the real engine (1 loop -- or 2-4 loops in the `multi` runs, where loop 0 is modelled and the others are judged by the direct oracles only --; server, or gnet.Client dialling the harness in the `client` runs; LT / ET / ET+chunk; tcp or unix; reactor or reuse-port; "
         "read-buffer 1-64 KiB; optional 4 KiB SO_SNDBUF) from the current tree with x/sys/unix swapped for the "
         "vunix shim, runs 4-30 seeded steps (peer connect / send of sizes around the read-buffer size / receive / "
